@@ -1,16 +1,17 @@
 """C16 - prelude functions and macros compute what their documentation says."""
+import re
 from ..common import *
 from .. import dump, evalcorr
 from ..evalprop import *
 
 PID = "C16"
 MANIFEST = {
-    "text": "Theorems about the closures obtained by loading the GENERATED text of prelude.lisp with the model reader and evaluator inside Coq: the prelude loads without error (kernel computation), and for ALL operand forms X, Y the control macros and / or / when / not, apply, throw and the catch / catch-all clauses of try expand to the documented forms, the list functions length, range, foldl, reverse, map, zip, last, init, foldr and enumerate are proved for EVERY list, + and * for EVERY list of numbers whose running results stay in the 64-bit range (the sum / the product; 0 / 1 for no argument; foldl restated with a guarded step because the primitive can signal) - any length, any elements, and for foldl and map every function whose applications evaluate - by induction over the list through the evaluator's tail-call rules, with the result AND the fact that the loop runs at the depth it was called at (fuel linear in the length); get-property-safe (through which every catch clause reads the kind of a signal) returns for EVERY key and EVERY value what the primitive . returns and nil whenever . signals, and and / or / when / not expand to conditionals in which each operand occurs exactly where and as often as the documentation implies (each operand evaluated at most once, the second only when needed) - proved by symbolic evaluation of the macro bodies through the derived evaluator rules. A change of prelude.lisp regenerates the text and the loaded closures, so either the computed closure no longer matches the lemma about its body or the theorem fails. The list functions (map foldl foldr reverse zip length enumerate range append concat last init apply), the variadic arithmetic and comparisons are tied to their documented results by generated calls (lists of length 0..60 of mixed elements, native / closure / variadic / fixed-arity / signalling function arguments, operands with output side effects) run in the model and on the binary and checked against independent specification functions.",
-    "note": "The 'for every list' statements are theorems for length, range, foldl, reverse, map, zip, last, init, foldr, enumerate, + and *; for append, concat, apply, - and / and the comparisons they are validated by the differential check and the specification monitors (lists up to 20000 elements), not proved. Trusted: Coq kernel; transcription of the evaluator; prelude text generated from the source.",
+    "text": "Theorems about the closures obtained by loading the GENERATED text of prelude.lisp with the model reader and evaluator inside Coq: the prelude loads without error (kernel computation), and for ALL operand forms X, Y the control macros and / or / when / not, apply, throw and the catch / catch-all clauses of try expand to the documented forms, the list functions length, range, foldl, reverse, map, zip, last, init, foldr and enumerate are proved for EVERY list, + * - / for EVERY list of numbers whose intermediate results stay in the 64-bit range (sum, product, first minus the sum of the others, first divided by the product of the others; 0 / 1 / 0 / 1 for no argument, negation / reciprocal for one; foldl restated with a guarded step because the primitives can signal; the guard of - is false exactly on the open finding minus-spurious-overflow), <= >= /= for EVERY pair of numbers - any length, any elements, and for foldl and map every function whose applications evaluate - by induction over the list through the evaluator's tail-call rules, with the result AND the fact that the loop runs at the depth it was called at (fuel linear in the length); get-property-safe (through which every catch clause reads the kind of a signal) returns for EVERY key and EVERY value what the primitive . returns and nil whenever . signals, and and / or / when / not expand to conditionals in which each operand occurs exactly where and as often as the documentation implies (each operand evaluated at most once, the second only when needed) - proved by symbolic evaluation of the macro bodies through the derived evaluator rules. A change of prelude.lisp regenerates the text and the loaded closures, so either the computed closure no longer matches the lemma about its body or the theorem fails. The list functions (map foldl foldr reverse zip length enumerate range append concat last init apply), the variadic arithmetic and comparisons are tied to their documented results by generated calls (lists of length 0..60 of mixed elements, native / closure / variadic / fixed-arity / signalling function arguments, operands with output side effects) run in the model and on the binary and checked against independent specification functions.",
+    "note": "The 'for every list' statements are theorems for length, range, foldl, reverse, map, zip, last, init, foldr, enumerate, + * - /, <= >= /=; for append, concat and apply on functions they are validated by the differential check and the specification monitors (lists up to 20000 elements), not proved. Trusted: Coq kernel; transcription of the evaluator; prelude text generated from the source.",
     "technique": "Coq symbolic evaluation of the generated prelude text: macro bodies for all operands; list functions by induction over the list through loop-level evaluator rules (result and constant depth) + kernel computation on the generated prelude + differential check against specification functions incl. lists far beyond the recursion limit",
 }
 TARGETS = ["Properties/C16.v", "Eval/PreludeState.v"]
-IMPORTS = ["Eval.EvalRules", "Eval.PreludeState", "Eval.PreludeProofs", "Eval.CatchProofs", "Eval.MacroProofs2", "Eval.LengthProofs", "Eval.RangeProofs", "Eval.FoldProofs", "Eval.MapProofs", "Eval.ZipProofs", "Eval.LastProofs", "Eval.InitProofs", "Eval.FoldrProofs", "Eval.EnumerateProofs", "Eval.SumProofs", "Properties.C16"]
+IMPORTS = ["Eval.EvalRules", "Eval.PreludeState", "Eval.PreludeProofs", "Eval.CatchProofs", "Eval.MacroProofs2", "Eval.LengthProofs", "Eval.RangeProofs", "Eval.FoldProofs", "Eval.MapProofs", "Eval.ZipProofs", "Eval.LastProofs", "Eval.InitProofs", "Eval.FoldrProofs", "Eval.EnumerateProofs", "Eval.SumProofs", "Eval.CompareProofs", "Eval.MinusProofs", "Eval.DivideProofs", "Properties.C16"]
 THEOREMS = [
     ("C16_prelude_loads", "prelude_ok = true /\\ repl_ok = true /\\ debugger_ok = true"),
     ("C16_and_expansion", "forall X Y, macro_expands_to (s \"and\") [X; Y] (vec_to_list [vsym \"if\"; X; Y; nil_value])"),
@@ -40,6 +41,12 @@ THEOREMS = [
     ("C16_plus", "forall vals zs st d, Forall2 (fun v z => getv v = VNum z) vals zs -> in_range_from Z.add 0 zs = true -> has_prelude st -> (d + 4 <= MAXD)%N -> exists fuel st' r, eval_loop fuel st pl_body (pl_env (vec_to_list vals)) pm d = (st', ROk r) /\\ has_prelude st' /\\ getv r = VNum (fold_left Z.add zs 0%Z)"),
     ("C16_times", "forall vals zs st d, Forall2 (fun v z => getv v = VNum z) vals zs -> in_range_from Z.mul 1 zs = true -> has_prelude st -> (d + 4 <= MAXD)%N -> exists fuel st' r, eval_loop fuel st tm_body (tm_env (vec_to_list vals)) pm d = (st', ROk r) /\\ has_prelude st' /\\ getv r = VNum (fold_left Z.mul zs 1%Z)"),
     ("C16_plus_call_env", "forall src vals i n, (let '(ps, _, e, _) := plus_parts in pair_params src ps true vals e i n) = inl (pl_env (vec_to_list vals))"),
+    ("C16_less_or_equal", "forall x y a b st d, getv x = VNum a -> getv y = VNum b -> has_prelude st -> (d + 3 <= MAXD)%N -> exists fuel st' r, eval_loop fuel st (c_body \"<=\") (c_env \"<=\" x y) pm d = (st', ROk r) /\\ has_prelude st' /\\ r = bool_val (a <=? b)%Z"),
+    ("C16_greater_or_equal", "forall x y a b st d, getv x = VNum a -> getv y = VNum b -> has_prelude st -> (d + 3 <= MAXD)%N -> exists fuel st' r, eval_loop fuel st (c_body \">=\") (c_env \">=\" x y) pm d = (st', ROk r) /\\ has_prelude st' /\\ r = bool_val (a >=? b)%Z"),
+    ("C16_not_equal", "forall x y a b st d, getv x = VNum a -> getv y = VNum b -> has_prelude st -> (d + 3 <= MAXD)%N -> exists fuel st' r, eval_loop fuel st ne_body (ne_env x y) pm d = (st', ROk r) /\\ has_prelude st' /\\ is_nil r = (a =? b)%Z"),
+    ("C16_minus", "forall vals zs st d, Forall2 (fun v z => getv v = VNum z) vals zs -> minus_ok zs = true -> has_prelude st -> (d + 5 <= MAXD)%N -> exists fuel st' r, eval_loop fuel st mi_body (mi_env (vec_to_list vals)) pm d = (st', ROk r) /\\ has_prelude st' /\\ getv r = VNum (minus_spec zs)"),
+    ("C16_divide", "forall vals zs st d, Forall2 (fun v z => getv v = VNum z) vals zs -> divide_ok zs = true -> has_prelude st -> (d + 5 <= MAXD)%N -> exists fuel st' r, eval_loop fuel st dv_body (dv_env (vec_to_list vals)) pm d = (st', ROk r) /\\ has_prelude st' /\\ getv r = VNum (divide_spec zs)"),
+    ("C16_minus_divide_spec", "(forall z, minus_spec [z] = (- z)%Z) /\\ minus_spec [] = 0%Z /\\ divide_spec [] = 1%Z /\\ (forall z r rs, minus_spec (z :: r :: rs) = (z - fold_left Z.add (r :: rs) 0)%Z) /\\ (forall z r rs, divide_spec (z :: r :: rs) = Z.quot z (fold_left Z.mul (r :: rs) 1%Z)) /\\ (forall z, divide_spec [z] = Z.quot 1 z) /\\ minus_ok [0; 9223372036854775807; 1]%Z = false /\\ divide_ok [1; 0]%Z = false /\\ divide_ok [100; 5; 2]%Z = true"),
 ]
 
 def lst(xs):
@@ -83,7 +90,20 @@ def spec_cases(rng, maxlen):
     cases.append((f"(* {' '.join(map(str, l[:6]))})", pr(p)))
     if l:
         cases.append((f"(- {' '.join(map(str, l))})", pr(-l[0] if len(l) == 1 else l[0] - sum(l[1:]))))
+    else:
+        cases.append(("(-)", "0"))
     cases.append((f"(apply + {lst(l)})", pr(sum(l))))
+    # / : no argument 1, one argument 1 divided by it, otherwise the first divided by the product of the others (truncating division)
+    quot = lambda x, y: abs(x) // abs(y) * (1 if (x >= 0) == (y > 0) else -1)
+    dl = [x for x in l[:4] if x != 0]
+    if not dl:
+        cases.append(("(/)", "1"))
+    elif len(dl) == 1:
+        cases.append((f"(/ {dl[0]})", pr(quot(1, dl[0]))))
+    else:
+        den = 1
+        for x in dl[1:]: den *= x
+        cases.append((f"(/ {dl[0] * 1000} {' '.join(map(str, dl[1:]))})", pr(quot(dl[0] * 1000, den))))
     a, b = rng.range(-3, 3), rng.range(-3, 3)
     tf = lambda c: "t" if c else "()"
     cases.append((f"(list (<= {a} {b}) (>= {a} {b}) (/= {a} {b}))", f"({tf(a <= b)} {tf(a >= b)} {tf(a != b)})"))
@@ -180,6 +200,23 @@ def run(tier, seed):
             wrong += 1
             if wrong <= 3:
                 rep.violation(f"{p} does not return its documented result {exp}", {"program": p, "expected": exp, "observed": got if got is not None else ps.answers[i][:300]})
+    # the documented value for a call without arguments, read from the docstrings of the source itself
+    src = open("/repo/src/prelude.lisp").read()
+    zero_docs = []
+    for fn in ["+", "*", "-", "/"]:
+        m = re.search(r"\(defun " + re.escape(fn) + r" \(& numbers\)\s*\"([^\"]*)\"", src)
+        if m:
+            mm = re.search(r"[Rr]eturn (-?\d+) if called wh?ith 0 arguments|called with 0 arguments: return (-?\d+)", m.group(1))
+            if mm:
+                zero_docs.append((fn, mm.group(1) or mm.group(2)))
+    za = run_driver_cases(evalcorr.driver_lines([f"(print ({fn}))" for fn, _ in zero_docs]))
+    rep.evaluations += len(zero_docs)
+    for (fn, want), a in zip(zero_docs, za):
+        t = result_tree(dump.split_run_answer(a))
+        got = dump.text_of(t) if t is not None else None
+        if got != want:
+            rep.violation(f"({fn}) returns {got}, its documentation says {want}", {"program": f"({fn})", "expected": want, "observed": got if got is not None else a[:200]})
+    rep.coverage["zero_argument_docs"] = len(zero_docs)
     long_answers = run_driver_cases(evalcorr.driver_lines(["(print " + p + ")" for p, _ in long_cases]), timeout=60.0)
     rep.evaluations += len(long_cases)
     for (p, exp), a in zip(long_cases, long_answers):
